@@ -53,6 +53,16 @@ var c18Templates = []string{
 	`(if (trace! false) (trace! :then) (trace! N))`,
 	`(do (def x N) (def x (+ x 1)) x)`,
 	`(let [f (fn [g n] (if (= n 0) :done (g g (- n 1))))] (f f N))`,
+	// errors raised by the evaluator itself or by builtins, caught and inspected, or left uncaught
+	`(try (let 5 N) (catch e (str "caught: " e)))`,
+	`(try (do (trace! N) (let 5 1)) (catch e (list (type? e) (str e))))`,
+	`(try (undefined-fn N) (catch e (list (type? e) (str e))))`,
+	`(try (nth [1 2] N) (catch e (list (type? e) (str e))))`,
+	`(try ((fn [a b] a) N) (catch e (list (type? e) (str e))))`,
+	`(try (throw {:code N}) (catch e (list (type? e) e)))`,
+	`(do (trace! :before) (undefined-fn N))`,
+	`(do (trace! :before) (throw (list :uncaught N)))`,
+	`(let [a N] (do (trace! a) (nth [1 2] a)))`,
 }
 
 var c18Cmds = []debuggertypes.Command{debuggertypes.NoOp, debuggertypes.Next, debuggertypes.In, debuggertypes.Out}
@@ -93,19 +103,20 @@ func (sp *stepSpy) TaskEnd(interface{})                                         
 func (sp *stepSpy) TaskPanic(interface{}, interface{})                           {}
 
 type c18Exec struct {
-	result string
-	trace  []string
-	panic  string
+	result  string
+	errText string // err.Error() of the returned error: message and position
+	trace   []string
+	panic   string
 }
 
 // c18Once runs src in a fresh environment, with the stepper answering cmd(i) at its i-th consultation
 // (nil: no stepper).
 func c18Once(ast func() types.MalType, plan c03Plan, cmd func(i int) debuggertypes.Command, spy *stepSpy) c18Exec {
 	s := NewSim(&Tape{Replay: true}, SimCfg{StarveID: -1})
-	h := &Harness{S: s}
+	h := &Harness{S: s, Canon: canon03}
 	e := NewEnv()
 	h.Install(e)
-	rt := &c03Rt{fired: map[string]int{}, plan: plan}
+	rt := &c03Rt{fired: map[string]int{}, plan: plan, rawPanicOK: map[int]bool{}}
 	call.CallOverrideFN(e, "probe!", func(i int) (types.MalType, error) { return rt.probe(i, false) })
 	e.Set(types.Symbol{Val: "probe-raw!"}, types.Func{Fn: func(ctx context.Context, a []types.MalType) (types.MalType, error) {
 		return rt.probe(a[0].(int), true)
@@ -137,6 +148,7 @@ func c18Once(ast func() types.MalType, plan c03Plan, cmd func(i int) debuggertyp
 		res, err := lisp.EVAL(context.Background(), ast(), e)
 		if err != nil {
 			ex.result = "THROWN " + thrown03(err)
+			ex.errText = err.Error()
 		} else {
 			ex.result = canon03(res)
 		}
@@ -166,7 +178,7 @@ func (c18) Run(tp *Tape, opt RunOpt) *RunOut {
 	kind := tp.Weighted(LaneWork, []int{3, 3})
 	if kind == 0 {
 		g := &c03Gen{tp: tp}
-		root := g.try(0)
+		root := g.try(0, false)
 		src = "(let [r " + root.render() + "] (list r e))"
 		if g.sites > 0 && tp.Chance(LaneWork, 2, 3) {
 			plan[1+tp.Draw(LaneWork, g.sites)] = c03Faults[1+tp.Draw(LaneWork, len(c03Faults)-1)]
@@ -213,6 +225,9 @@ func (c18) Run(tp *Tape, opt RunOpt) *RunOut {
 			ok = false
 		} else if ex.result != ref.result {
 			viol("result", "result-differs", "with the stepper EVAL gave\n    "+ex.result+"\n  without it\n    "+ref.result)
+			ok = false
+		} else if ex.errText != ref.errText {
+			viol("result", "error-text-or-position-differs", "with the stepper EVAL returned the error\n    "+ex.errText+"\n  without it\n    "+ref.errText)
 			ok = false
 		}
 		if strings.Join(ex.trace, " ") != strings.Join(ref.trace, " ") {
